@@ -5,10 +5,10 @@ import kcommon as kc
 import gen_harness
 
 PID = "C15"
-MODEL_TARGETS = ["Proofs/Eval.vo", "Amount/F64.vo", "Amount/Dec.vo", "Gen/Catalogue.vo", "Gen/KernelsFmt.vo"]
-PROOF_TARGETS = ["Props/C15.vo", "Pinned/C15.vo"]
-PROPS = "Props/C15.v"
-COQCHK = ["QV.Props.C15"]
+MODEL_TARGETS = ["Proofs/Eval.vo", "Amount/F64.vo", "Amount/Dec.vo", "Gen/Catalogue.vo", "Gen/KernelsFmt.vo", "Proofs/C15f64.vo"]
+PROOF_TARGETS = ["Props/C15.vo", "Pinned/C15.vo", "Props/C15amount.vo", "Pinned/C15amount.vo"]
+PROPS = ["Props/C15.v", "Props/C15amount.v"]
+COQCHK = ["QV.Props.C15", "QV.Props.C15amount"]
 TRUSTED_BASE = [
     "Coq 8.16.1 kernel (coqc); coqchk in the thorough tier",
     "translator rs2j+j2v: Quantity::fmt, Unit::fmt (src/lib.rs), Display for Rate (src/rate.rs) and the generated Display forwarders translated from the current source (Gen/KernelsFmt.v); format!/write! pieces {} and {:.*}, form.precision(), form.pad_integral, cfg(feature = fpdec) on statements",
@@ -16,8 +16,10 @@ TRUSTED_BASE = [
 ]
 LEVEL = ("Coq theorems (Props/C15.v) about what the repository's code does with the modelled core::fmt: a value with a unit symbol is pad_integral(non-negative?, \"<|amount|> <symbol>\") with the amount formatted under the "
          "caller's precision only; unit-less values are the amount's own Display; without flags exactly [one minus] amount space symbol; sign/+/fill/alignment/0/width wrap the text as a whole (explicit shape incl. how many fill "
-         "characters); a unit is its symbol under str rules; a rate is 'term / per' with a per-multiple of one omitted; the generated impls forward. Parse-back, correct rounding to the precision and the character-width are "
-         "judged on the implementation over a grid of format specs with exact rationals (testing). Partial: core::fmt and the amount printers are modelled, not verified.")
+         "characters); a unit is its symbol under str rules; a rate is 'term / per' with a per-multiple of one omitted; the generated impls forward. The amount text (Props/C15amount.v): decimal - the digits printed are those of |amount| brought to the displayed precision, rounded to the nearest when digits are dropped "
+         "(error at most half a unit of the last shown digit) and exact otherwise, the text parses back (from_str) to that value and, without precision and with its sign, to the stored amount itself; a quantity without flags is exactly "
+         "String::from(amount) + ' ' + symbol; binary64 - zeros with their sign, infinities and every finite double whose digits pass the read-back test (which the shortest-digit search applies to its own result before using it) parse back identically. "
+         "Correct rounding of binary64 under a precision and the character-width are judged on the implementation over a grid of format specs with exact rationals (testing). Partial: core::fmt and the amount printers are modelled, not verified.")
 LEVEL_NOTE = "Trusted: Coq kernel, translator rs2j+j2v, the hand model of core::fmt / fpdec Display (differentially tested on every run); no axioms in these theorems."
 ASSUMPTIONS = [
     "core::fmt behaves as Rt/Fmt.v (rustc 1.95 sources), fpdec's Display as Amount/DecModel.v",
@@ -97,6 +99,18 @@ def run(ctx):
                         tu, pu = rng.randrange(tn[tq].n), rng.randrange(tn[pq].n)
                         ops.append(f"rate rate_str {tq} {pq} {t_} {tu} {p_} {pu}"); meta.append(("rate", tq, pq, t_, tu, p_, pu))
         impl = kr.run(be, ops)
+        # the premise of the parse-back theorem (C15_f64_parse_back), evaluated in Coq for every finite double used here
+        if be == "f64" and ctx.model_ok and not ctx.replay:
+            used = sorted({m[2] for m in meta if m[0] == "fmt"})
+            fw.coq_make(["Proofs/C15f64.vo"], ctx.log)
+            hdr = ("From Coq Require Import ZArith String List.\nFrom Flocq Require Import IEEE754.Binary IEEE754.Bits.\n"
+                   "From QV Require Import Rt.Prelude Rt.Fmt Proofs.C15f64.\n"
+                   "Definition dk (z : Z) : string := match b64_of_bits z with B754_finite _ _ _ m e _ => if digits_ok m e then \"ok\" else \"FAIL\" | _ => \"ok\" end.\n")
+            res = fw.run_coq_cases("C15-digits", hdr, [f"dk {int(a, 16)}%Z" for a in used], ctx.log)
+            bad = [a for a, r in zip(used, res) if r != "ok"]
+            kr.extra["digits_ok_evaluated"] = len(used)
+            if bad:
+                raise fw.Failure("proof", f"premise digits_ok of theorem C15_f64_parse_back does not hold for the double(s) {bad[:5]}: the modelled digit generation does not read back")
         for op, m, r in zip(ops, meta, impl):
             if m[0] == "replay" or r in ("PANIC", "UNSUPPORTED"):
                 continue
